@@ -65,6 +65,7 @@ def signature(case, idx, verdict):
 
 def check(ctx):
     vlib.prove(ctx, ["KrillModel.Props.C15"])
+    pc.private_kmodel(ctx)
     found = False
     if vlib.build_harness(ctx, ["proto"]):
         n, length = (28, 40) if ctx.tier == "quick" else (480, 70)
